@@ -289,7 +289,7 @@ def optimality(res, h, fn, key, paths, K, inn, left, rght, dtv, dx, sampler):
 
 def main(tier):
     run = check.Run(PID, tier)
-    check.JOB_BUDGET[0] = 400 if tier == "quick" else 3000
+    check.JOB_BUDGET[0] = 400 if tier == "quick" else 1500
     cf = cfgs(tier)
     cfT = tu_cfgs(tier)
     check.run_jobs([(_compile, (cfT, tier))])
@@ -302,7 +302,7 @@ def main(tier):
         else:
             jobs.append((job, (c, cfT, tier)))
     jobs.append((job_scan, (cfT, tier)))
-    run.extend(check.run_jobs(jobs, timeout=1500 if tier == "quick" else 7200))
+    run.extend(check.run_jobs(jobs, timeout=1500 if tier == "quick" else 1800))
     run.bounds += ["(spec, segments): %s ; dt_i in [1e-2, 1e2] symbolic (any ratio), dx_i symbolic" % [(SPECS[s][0], n) for s, n in cf if s not in MINDER],
                    "MinDerivative<5,3,3> and <6,3,3>: dt fixed to %s (N=1)%s, dx_i symbolic" % ([tuple(str(x) for x in v) for v in DT_FIXED[1]], (" and %s (N=2)" % [tuple(str(x) for x in v) for v in (DT_FIXED[2] if tier == "thorough" else DT_FIXED[2][1:2])])),
                    "MinDerivative N=2: coefficients within 1e-4 |dx|_inf of the exact rational minimiser of the documented cost"]
